@@ -28,11 +28,30 @@ def axfrMarker : Rec := { name := Name.root, rtype := T_AXFR, cls := C_IN, ttl :
 def persist (z : Zone) (j : Journal) : Journal :=
   j ++ axfrMarker :: z.flatMap (·.2)
 
-/-- live `update_records(records, true)` with the journal attached -/
+/-- RDATA octets of a row as far as they can matter for the size limit (SOA / empty RDATA are small) -/
+def rdataLen : RData → Nat
+  | .bytes b => b.length
+  | _ => 0
+
+/-- `Journal::insert_record` encodes the row with `BinEncoder::new` (`max_size = u16::MAX`): a record
+whose stand-alone wire form — owner name, TYPE, CLASS, TTL, RDLENGTH (10 octets), RDATA — exceeds
+65 535 octets makes it fail.  (No DNS message can carry such an RR; a caller of the Rust API can.) -/
+def rowFits (r : Rec) : Bool := decide (r.name.encodedLen + 10 + rdataLen r.rdata ≤ 65535)
+
+/-- `Journal::insert_records`: row by row, each its own commit; stops at the first row that fails -/
+def insertRows (j : Journal) : List Rec → Journal × Bool
+  | [] => (j, true)
+  | r :: rs => if rowFits r then insertRows (j ++ [r]) rs else (j, false)
+
+/-- live `update_records(records, true)` with the journal attached: if a row cannot be written the
+answer is SERVFAIL, the zone is untouched — and the rows before it stay in the journal -/
 def liveUpdateRecords (c : Cfg) (z : Zone) (j : Journal) (recs : List Rec) :
     Zone × Journal × URes Bool :=
-  let r := updateRecords c z recs true
-  (r.1, j ++ recs ++ r.2.2.toList, r.2.1)
+  match insertRows j recs with
+  | (j1, false) => (z, j1, .rc .servFail)
+  | (j1, true) =>
+    let r := updateRecords c z recs true
+    (r.1, j1 ++ r.2.2.toList, r.2.1)
 
 /-- `ZoneHandler::update` with the journal attached -/
 def updateJ (c : Cfg) (z : Zone) (j : Journal) (m : Msg) : Zone × Journal × Stage × URes Bool :=
